@@ -70,7 +70,7 @@ func concDrain(args []string, out *bufio.Writer) {
 			}
 			for o := 0; o < others; o++ {
 				wg.Add(1)
-				kind := int(r.next() % 5)
+				kind := int(r.next() % 7)
 				early := r.next()%2 == 0
 				go func() {
 					defer wg.Done()
@@ -95,6 +95,9 @@ func concDrain(args []string, out *bufio.Writer) {
 						_ = c.GetMaximum()
 					case 4:
 						_, _ = c.GetIfPresent(1)
+					default:
+						// a maintenance run driven by a caller (performCleanUp) while the writers write
+						c.CleanUp()
 					}
 				}()
 			}
